@@ -20,7 +20,7 @@ RULE = ("all statement sequences of length <= 3 (quick) / <= 4 (thorough) over 6
         "touches a path prefix of an earlier one")
 ASSUMPTIONS = ["expected verdict/tree from the Python reference interpreter ref_eval (cross-checked with the Coq spec by the agent's vm_compute enumeration)"]
 
-FORMS = ["hdr", "aot", "kv1", "kvinl", "kvinld", "kvarr"]
+FORMS = ["hdr", "aot", "kv1", "kvinl", "kvinld", "kvarr", "kvinl0", "kvarrinl", "kvarr0"]
 
 
 def mk(form, path):
@@ -34,6 +34,12 @@ def mk(form, path):
         return ("kv", list(path), ("t", [([b"q"], ("i", 1))]))
     if form == "kvinld":
         return ("kv", list(path), ("t", [([b"q", b"r"], ("i", 1))]))
+    if form == "kvinl0":
+        return ("kv", list(path), ("t", []))                                  # an EMPTY inline table literal is as closed as any other
+    if form == "kvarrinl":
+        return ("kv", list(path), ("a", [("t", [([b"q"], ("i", 1))])]))      # a static array of inline tables is not an array of tables
+    if form == "kvarr0":
+        return ("kv", list(path), ("a", []))
     return ("kv", list(path), ("a", [("i", 1)]))
 
 
@@ -99,14 +105,7 @@ def render(rng, stmts):
         elif st[0] == "aot":
             out.append(b"[[" + p + b"]]")
         else:
-            v = st[2]
-            if v[0] == "i":
-                vt = b"1"
-            elif v[0] == "a":
-                vt = b"[1]"
-            else:
-                vt = render_inline(rng, v)
-            out.append(p + b" = " + vt)
+            out.append(p + b" = " + render_value(rng, st[2]))
     return b"\n".join(out) + b"\n"
 
 
@@ -136,7 +135,15 @@ def gen_cases(rng, tier):
             meta["tree"] = G.dump_tab(v[1])
         out.append(Case("doc", [render(rng, stmts)], meta))
 
+    atoms6 = [mk(f, p) for f in FORMS[:6] for p in paths]
     for n in range(1, maxn + 1):
+        if n == 4:
+            # 4-statement sequences: exhaustive over the six original forms (36^4), a sample over all nine (54^4 = 8.5M)
+            for seq in itertools.product(atoms6, repeat=4):
+                add(list(seq), "enum4")
+            for _ in range(600000):
+                add([rng.choice(atoms) for _ in range(4)], "enum4-sample")
+            continue
         for seq in itertools.product(atoms, repeat=n):
             add(list(seq), "enum%d" % n)
     # the same enumeration over keys that cannot be written bare (the key's text differs from every spelling of it)
@@ -152,7 +159,7 @@ def gen_cases(rng, tier):
     # 1 / {c = 1} / {c.d = 1} / [1] - a dotted key may not enter or extend an inline table, an array or a scalar defined by an
     # earlier pair, whatever the depth at which they meet
     ipaths = [(x,) for x in alpha] + [(x, y) for x in alpha for y in alpha] + [(b"a", b"b", y) for y in (b"a", b"d")]
-    ivals = [("i", 1), ("t", [([b"c"], ("i", 1))]), ("t", [([b"c", b"d"], ("i", 1))]), ("a", [("i", 1)])]
+    ivals = [("i", 1), ("t", [([b"c"], ("i", 1))]), ("t", [([b"c", b"d"], ("i", 1))]), ("a", [("i", 1)]), ("t", []), ("a", [("t", [([b"c"], ("i", 1))])])]
     iatoms = [(list(pth), v) for pth in ipaths for v in ivals]
     for n in (1, 2, 3):
         seqs = itertools.product(iatoms, repeat=n)
